@@ -566,7 +566,7 @@ func rawFieldsExp(v interface{}, stack bool) []KV {
 			if !ok {
 				continue
 			}
-			out = append(out, KV{Key: k, Exp: Any()})
+			out = append(out, KV{Key: k, Exp: literalExp(a[i+1])})
 		}
 		return out
 	case map[string]interface{}:
@@ -577,7 +577,7 @@ func rawFieldsExp(v interface{}, stack bool) []KV {
 		sort.Strings(ks)
 		var out []KV
 		for _, k := range ks {
-			out = append(out, KV{Key: k, Exp: Any()})
+			out = append(out, KV{Key: k, Exp: literalExp(a[k])})
 		}
 		return out
 	}
@@ -608,4 +608,29 @@ func NativeExp(v interface{}) (Exp, bool) {
 		return N(s), true
 	}
 	return Exp{}, false
+}
+
+// literalExp: expectation for a literal Fields() value: typed pointers dereference (nil -> null), native
+// types use the typed encoders, anything else is only required to be valid.
+func literalExp(v interface{}) Exp {
+	if v == nil {
+		return Null()
+	}
+	rv := reflect.ValueOf(v)
+	if rv.Kind() == reflect.Ptr {
+		switch v.(type) {
+		case *string, *bool, *int, *int8, *int16, *int32, *int64, *uint, *uint8, *uint16, *uint32, *uint64, *float32, *float64, *time.Time, *time.Duration:
+			if rv.IsNil() {
+				return Null()
+			}
+			if e, ok := NativeExp(rv.Elem().Interface()); ok {
+				return e
+			}
+		}
+		return Any()
+	}
+	if e, ok := NativeExp(v); ok {
+		return e
+	}
+	return Any()
 }
